@@ -19,6 +19,12 @@ func GroupBy(size int, underlying interface{}) (Iterator, error) {
 	group := []reflect.Value{}
 	switch u.Kind() {
 	case reflect.Array, reflect.Slice:
+		if u.Kind() == reflect.Array && !u.CanAddr() {
+			// an array passed by value cannot be sliced in place: slice an addressable copy
+			cp := reflect.New(u.Type()).Elem()
+			cp.Set(u)
+			u = cp
+		}
 		if u.Len() == size {
 			return &groupBy{
 				group: []reflect.Value{u},
